@@ -61,6 +61,10 @@ func (g *gen) needDerivedVar(name t.ID) bool {
 					if recv.MType().Eq(typeExprPixelSwizzler) && argsContainsArgsDotFoo(args, name) {
 						return errNeedDerivedVar
 					}
+				case t.IDLimitedCopyU32FromReader:
+					if recv.MType().IsIOType() && argsContainsArgsDotFoo(args, name) {
+						return errNeedDerivedVar
+					}
 				}
 
 			case a.KIOManip:
